@@ -85,6 +85,36 @@ fn render<T: PurlShape>(p: &GenericPurl<T>) -> String {
     if !probes.is_empty() {
         quals.push(format!("[key probes {probes}]"));
     }
+    // collection operations that parsing and building never call: retain_mut with values
+    // emptied in the callback, and the typed checksum's remove / get with another letter case
+    if !p.qualifiers().is_empty() {
+        let mut q = p.qualifiers().clone();
+        let mut i = 0;
+        q.retain_mut(|_, v| {
+            i += 1;
+            if i % 2 == 1 {
+                v.clear();
+            }
+            i % 3 != 0
+        });
+        let kept: Vec<String> = q.iter().map(|(k, v)| format!("{}={}", k.as_str(), v)).collect();
+        quals.push(format!("[retain_mut {}]", kept.join("&")));
+        use purl::qualifiers::well_known::Checksum;
+        if let Ok(Some(mut c)) = p.qualifiers().try_get_typed::<Checksum>() {
+            // (the map iterates in a per-process order: sort, or the transcript is not a function of the input)
+            let mut algs: Vec<String> = c.algorithms().map(str::to_owned).collect();
+            algs.sort();
+            let mut seen: Vec<String> = Vec::new();
+            for a in &algs {
+                let up = a.to_uppercase();
+                seen.push(format!("{}:{}", c.get_raw(&up).is_some(), c.get_raw(a).is_some()));
+                c.remove(&up);
+            }
+            let mut left: Vec<String> = c.algorithms().map(str::to_owned).collect();
+            left.sort();
+            quals.push(format!("[checksum other-case get/remove {} left {}]", seen.join(","), left.join(",")));
+        }
+    }
     format!(
         "Ok({}|{:?}|{}|{:?}|{}|{:?}|{})",
         p.package_type().package_type(),
